@@ -610,6 +610,12 @@ func otherParsers(rep *kit.Report, base string) {
 		serve("basicauth-header", kit.Get("GET", "/auth/x", "a.test:8080", "Authorization: "+a))
 	}
 	rep.Class("placeholders-and-matchers")
+	// request header fields at the size limits of a FastCGI name/value pair (a name or a value longer than one record can hold)
+	for _, shape := range [][2]int{{70000, 1}, {65490, 20}, {65500, 0}, {10, 70000}, {65000, 65000}} {
+		name := "X-" + strings.Repeat("N", shape[0])
+		serve("fastcgi-request/oversized-header", kit.Get("GET", "/f/x.php", "a.test:8080", name+": "+strings.Repeat("v", shape[1])))
+	}
+	rep.Class("fastcgi-oversized-request-headers")
 	// FastCGI response byte streams
 	var streams [][]byte
 	for _, st := range []string{"", "0", "99", "1000", "abc", "200 OK", "-1", "200", "600", " 200", "2e2", "9999999999999999999"} {
